@@ -490,6 +490,70 @@ def c17_case(draw, tier):
     return case
 
 
+# ----------------------------------------------------------------------------------------------
+# C07 (history part): every ENTAILMENT answered inside a real search, on the live box; enabled flags around push/pop
+# ----------------------------------------------------------------------------------------------
+class EntailWatcher:
+    def __init__(self):
+        self.bad = None
+        self.entailments = 0
+        self.nontrivial = 0
+        self.frames = {}  # level -> flags row saved when the level was created by a choice
+
+    def on_filter(self, i, inbox, params, status, outbox):
+        if self.bad or status != nx.PROP_ENTAILMENT:
+            return
+        self.entailments += 1
+        name = nx.ALG_NAME.get(int(i), "?")
+        box = _box(outbox)
+        if any(lo > hi for lo, hi in box):
+            self.bad = "%s%s answered ENTAILMENT with an empty domain: %s" % (name, list(params), box)
+            return
+        if box_size(box) > 5000 or name not in TYPES:
+            return
+        if any(lo < hi for lo, hi in box):
+            self.nontrivial += 1
+        par = [int(x) for x in params]
+        for t in box_points(box):
+            if TYPES[name].rel(list(t), par) is False:
+                self.bad = "inside the search %s%s answered ENTAILMENT on %s (input %s) although %s violates it" % (name, par, box, _box(inbox), list(t))
+                return
+
+    def on_choice(self, i, dom_idx, top, newtop, before, flags, events, shr_stack, flags_stack, upd):
+        for l in range(top, newtop + 1):
+            self.frames[l] = flags.copy()
+
+    def on_backtrack(self, where, top, ok, flags_stack, upd, stacks_top, triggered, triggers):
+        if self.bad or not ok or where != "solver":
+            return
+        ntop = int(stacks_top[0])
+        saved = self.frames.get(ntop)
+        if saved is not None and not np.array_equal(saved, flags_stack[ntop]):
+            self.bad = "after backtracking to level %d the set of disabled constraints is %s, the one saved for that alternative was %s" % (ntop, (~flags_stack[ntop]).nonzero()[0].tolist(), (~saved).nonzero()[0].tolist())
+
+
+def check_c07_search(case):
+    pc, cfg = case["problem"], case["config"]
+    tags = ["search", "cfg:" + cfg_tag(cfg)] + problem_tags(pc)
+    w = EntailWatcher()
+    out = solve.run(pc, cfg, tuple(case.get("op", ["iter"])), order=case.get("order"), detail=True, observers=[w])
+    tags.append("entailments:%s" % ("0" if w.entailments == 0 else "1-5" if w.entailments <= 5 else ">5"))
+    if w.bad:
+        return Verdict(False, w.bad + " [%s]" % cfg_tag(cfg), True, tags)
+    if out.kind not in ("ok", "slow"):
+        tags.append("aborted:" + out.kind)
+    return Verdict(True, "", w.nontrivial > 0, tags)
+
+
+@st.composite
+def c07_search_case(draw, tier):
+    big = tier != "quick"
+    pc = draw(gen.problem_case(max_shr=5, max_w=4, max_props=4 if not big else 5, max_arity=4, max_points=3000 if not big else 20000, profiles=("general", "wide", "nonneg", "bool", "general")))
+    cfg = draw(gen.config(pc))
+    nv = len(pc["idx"])
+    return {"kind": "search", "problem": pc, "config": cfg, "op": draw(st.sampled_from([["iter"], ["iter"], ["min", draw(st.integers(0, nv - 1))], ["max", draw(st.integers(0, nv - 1))]]))}
+
+
 CHECKS = {"C08": check_c08, "C10": check_c10, "C17": check_c17}
 RULES = {
     "C08": "cases = generated problem x configuration x operation x posting order x drawn priority order of the propagation queue; every non-failing exit of every propagation pass of the real search "
